@@ -223,6 +223,34 @@ func gen(t *rapid.T) Case {
 				l = l[cut:]
 			}
 		}
+		if len(c.Lines) == 1 && len(c.Lines[0]) >= 3 && rapid.IntRange(0, 7).Draw(t, "star") == 3 {
+			// a junction: the line is cut at an inner vertex J, and one or two short spurs leave J sideways - three or four
+			// members that all end in J, listed in any order and direction
+			l := c.Lines[0]
+			k := rapid.IntRange(1, len(l)-2).Draw(t, "stark")
+			J := l[k]
+			ax, ay := float64(l[k+1][0])-float64(J[0]), float64(l[k+1][1])-float64(J[1])
+			bx, by := float64(l[k-1][0])-float64(J[0]), float64(l[k-1][1])-float64(J[1])
+			r := 0.3 * math.Min(math.Hypot(ax, ay), math.Hypot(bx, by))
+			members := [][]vkit.P2{append([]vkit.P2{}, l[:k+1]...), append([]vkit.P2{}, l[k:]...)}
+			base := math.Atan2(ay, ax)
+			for sp, nsp := 0, rapid.IntRange(1, 2).Draw(t, "starspurs"); sp < nsp; sp++ {
+				th := base + rapid.Float64Range(0.4, 2.7).Draw(t, "starang")
+				if sp == 1 {
+					th = base - rapid.Float64Range(0.4, 2.7).Draw(t, "starang2")
+				}
+				members = append(members, []vkit.P2{J, vkit.MkP(float64(J[0])+r*math.Cos(th), float64(J[1])+r*math.Sin(th))})
+			}
+			for i := range members {
+				if rapid.Bool().Draw(t, "starrev") {
+					m := members[i]
+					for a, b := 0, len(m)-1; a < b; a, b = a+1, b-1 {
+						m[a], m[b] = m[b], m[a]
+					}
+				}
+			}
+			c.Lines = rapid.Permutation(members).Draw(t, "starorder")
+		}
 		if chained && len(c.Lines) >= 2 && rapid.Bool().Draw(t, "closeloop") {
 			// one more member from the end of the chain back to its start: the members together form a closed loop
 			c.Lines = append(c.Lines, []vkit.P2{last, first})
